@@ -154,7 +154,11 @@ def run_random(spec, rec):
                 then['outcomes'] = H.gen_outcomes(rng2, then, KINDS)
                 then['workers'] = case['workers']
                 rec.count('backend_reused_for_another_graph')
-            res = H.run_controlled(dict(case), strat, fine=fine, then=then)
+            debug_log = sidx == 0 and idx % 3 == 0
+            if debug_log:
+                rec.count('runs_with_debug_logging')
+            res = H.run_controlled(dict(case), strat, fine=fine, then=then,
+                                   debug_log=debug_log)
             if then is not None and res.outcome == 'returned':
                 # the first run is judged too
                 first = H.Result()
